@@ -56,7 +56,7 @@ CLAIMED = {
     "C17": ("property-based testing: R-SC comparison + per-iteration bookkeeping invariants for thread-locals and lazy statics",
             "Bounded generated programs over two loom thread-locals and two loom lazy statics from 1-4 threads: lazily-once-per-thread / once-per-execution initialisation, privacy, destruction by the owning thread with AccessError from the destructor, a single shared instance, initialisation happens-before access (race detector), re-initialisation in the next iteration.",
             "Initialisers contain no scheduling point; destructor order within a thread is not asserted (loom uses a hash map).", "4/C17"),
-    "C18": ("property-based differential testing: await-loop programs under loom vs R-AX with constrained reads (bracket A subset L subset U) + branch-limit verdicts",
+    "C18": ("property-based differential testing: await-loop programs under loom vs R-AX with constrained reads (bracket A subset L subset U) + branch-limit verdicts; do-while loops (unconditional yield) vs an interleaving reference with the documented yield semantics",
             "Bounded generated programs with one spinning thread (one or two yield_now / spin_loop loops on flags written once): completion without the branch limit, every exit outcome of the strongest reading explored, nothing outside the weakest reading; never-true loops must end in the documented branch-limit panic.",
             "Trusts R-AX; flags written once; outcomes that need SeqCst events ordered against po U rf are the recorded finding F12.", "4/C18"),
     "C19": ("property-based testing: product / subset oracles for exploration controls, boundary-value generation for limits",
